@@ -59,6 +59,15 @@ def special_inputs():
             add("loadopt", mode="hex", hex="07000000" + "0800" + "4100" + "0000" + "%02x%02x0400" % (t, st))                      # node header only, no end node
             add("loadopt", mode="hex", hex="07000000" + "0800" + "4100" + "0000" + "%02x%02x0800" % (t, st) + "aabbccdd" + "7fff0400")
             add("devpath", mode="hex", hex="%02x%02x0400" % (t, st))
+    # load options whose file-path names are long runs of one character (backslashes, dots, spaces, slashes) behind a letter: the work of
+    # decoding stays proportional to the length however repetitive the name is
+    for ch in ("5c00", "2e00", "2000", "2f00"):
+        for nodes, units in ((1, 32000), (4, 32000), (1, 2000)):
+            name = "4100" + ch * units + "0000"
+            node = "0404" + "%02x%02x" % ((4 + len(name) // 2) & 0xff, (4 + len(name) // 2) >> 8) + name
+            paths = node * nodes + "7fff0400"
+            add("loadopt", mode="hex", hex="07000000" + "%02x%02x" % ((len(paths) // 2) & 0xff, ((len(paths) // 2) >> 8) & 0xff) + "4100" + "0000" + paths)
+            add("devpath", mode="hex", hex=paths)
     return out
 
 
